@@ -491,12 +491,21 @@ pub fn manyrecs(ctx: &Ctx) -> Stats {
 
 /// thousands of short records with very uneven lengths and pairwise different content
 pub fn many_records(rng: &mut Rng, n: usize) -> Vec<Rec> {
+    // one case in three is also large in total bases (> 2^21) so that byte-budgeted work distribution is exercised
+    let long = rng.chance(1, 3);
+    let n = if long { n * 3 } else { n };
     (0..n)
         .map(|i| {
             let len = match rng.below(20) {
                 0 => rng.usize(500, 3000),
                 1 => 0,
-                _ => rng.usize(1, 80),
+                _ => {
+                    if long {
+                        rng.usize(60, 200)
+                    } else {
+                        rng.usize(1, 80)
+                    }
+                }
             };
             let class = *rng.pick(&[SeqClass::Uniform, SeqClass::MixedCaseU, SeqClass::IsolatedN, SeqClass::TwoLetter]);
             Rec { id: format!("m{}", i), desc: None, seq: gen_seq(rng, class, len, true) }
